@@ -82,6 +82,11 @@ type FuncContract struct {
 	CallSites map[string]*FuncContract
 	Witnesses []ParamDecl // fresh logical values available to the ensures of a call-site contract
 	GhostSets []Let       // ghost assignments executed when the function returns: ghostset g := expr
+	// Inlines: callees (suffix of their display name or closure alias) that are executed inline in
+	// this function even though they have loops or a contract of their own; InlineLoops: the
+	// invariants of their loops, stated over this function's variables ("<callee>#<ordinal>").
+	Inlines     []string
+	InlineLoops map[string]*LoopContract
 }
 
 func (fc *FuncContract) FullKey() string { return fc.Pkg + "::" + fc.Key }
@@ -96,7 +101,7 @@ type Contracts struct {
 	Ghosts map[string]ParamDecl // ghost globals: name -> type
 }
 
-var kwRe = regexp.MustCompile(`^(func|trusted func|pure|inline|pred|specfn|lock|ghost|requires|ensures|modifies|let|loop|invariant|prop|check|opt|axiom|rely|havoc|protects|recv|callsite|witness|ghostset)\b`)
+var kwRe = regexp.MustCompile(`^(func|trusted func|pure|inline|pred|specfn|lock|ghost|requires|ensures|modifies|let|loop|invariant|prop|check|opt|axiom|rely|havoc|protects|recv|callsite|witness|ghostset|inlines)\b`)
 
 func implicit(text string) string { return strings.TrimSpace(text) }
 
@@ -317,6 +322,19 @@ func (cs *Contracts) parseFile(root, file string) error {
 			if cur == nil {
 				return fmt.Errorf("%s: loop outside func", d.pos)
 			}
+			if i := strings.LastIndex(d.text, "#"); i >= 0 {
+				// loop of an inlined callee: loop <callee>#<ordinal>
+				n, err := strconv.Atoi(strings.TrimSpace(d.text[i+1:]))
+				if err != nil {
+					return fmt.Errorf("%s: loop <callee>#<ordinal>", d.pos)
+				}
+				curLoop = &LoopContract{Ordinal: n}
+				if cur.InlineLoops == nil {
+					cur.InlineLoops = map[string]*LoopContract{}
+				}
+				cur.InlineLoops[strings.TrimSpace(d.text[:i])+"#"+strconv.Itoa(n)] = curLoop
+				break
+			}
 			n, err := strconv.Atoi(strings.TrimSpace(d.text))
 			if err != nil {
 				return fmt.Errorf("%s: loop <ordinal>", d.pos)
@@ -333,6 +351,10 @@ func (cs *Contracts) parseFile(root, file string) error {
 				return fmt.Errorf("%s: %s outside func", d.pos, d.kw)
 			}
 			switch d.kw {
+			case "inlines":
+				for _, c := range splitTopComma(d.text) {
+					cur.Inlines = append(cur.Inlines, strings.TrimSpace(c))
+				}
 			case "prop":
 				cur.Props = append(cur.Props, strings.Fields(strings.ReplaceAll(d.text, ",", " "))...)
 			case "check":
